@@ -197,6 +197,44 @@ def _witness(r, method, conds, unit, acct):
         return {'ok': False, 'w': []}
 
 
+NO_AWIT = {'ok': False, 'hasS': False, 'ts': [], 'is': [], 'ds': [0, 0], 'ex': [1, 0], 'op': 'none', 'eff': [1, 0]}
+
+
+def _awitness(case, k, r, include_entropy, sden_op, kw):
+    """Ingredients of the pre-exponential factor taken from the species list of the CASE (site
+    densities, which reactants are adsorbates) and the species objects' own get_SoR - never from
+    ChemkinReaction.get_A / _get_n_surf.  exp(ds) is a libm sensor of the logged ds; eff is numpy's
+    sden_operation over the adsorbate reactants' site densities (verified by the trace spec)."""
+    import math
+    import numpy as np
+    rc, sp = case['rx'][k], case['species']
+    ts = r.transition_state
+    if r.is_adsorption or (ts is not None and any(type(t).__name__ == 'BEP' for t in ts)):
+        return NO_AWIT
+    try:
+        w = dict(NO_AWIT, ok=True)
+        if ts is not None and include_entropy:
+            val = lambda x: float(x.get_SoR(**kw))
+            is_ = [(int(n), val(x)) for x, n in zip(r.reactants, r.reactants_stoich)]
+            ts_ = [(int(n), val(x)) for x, n in zip(ts, r.transition_state_stoich)]
+            ds = sum(n * v for n, v in ts_) - sum(n * v for n, v in is_)
+            if not core.finite(ds) or abs(ds) > 600:
+                return NO_AWIT
+            w.update(hasS=True, ts=[[n, to_dec(v)] for n, v in ts_], **{'is': [[n, to_dec(v)] for n, v in is_]})
+            w.update(ds=to_dec(ds), ex=to_dec(math.exp(ds)))
+        dens = []
+        for c, i in rc['lhs']:
+            if sp[i - 1]['ph'] != 'G' and not sp[i - 1]['bulk'] and sp[i - 1]['site']:
+                dens += [case['sites'][sp[i - 1]['site'] - 1]['sden']] * int(c)
+        if dens:
+            if sden_op is None:
+                return NO_AWIT
+            w.update(op=sden_op, eff=to_dec(float(getattr(np, sden_op)(dens))))
+        return w
+    except Exception:
+        return NO_AWIT
+
+
 def _write_event(ev, call, d, fname, extra, newline='\n'):
     """call(filename) runs the real writer.  Returns (event, returned text or None)."""
     e = {'ev': ev, 'raised': '', 'same': True, 'lines': []}
@@ -287,7 +325,9 @@ def execute(case):
             'write_gas', lambda fn: ck.write_gas(nasa_species=species_arg, reactions=rx_arg,
                                                  filename=fn, **dict(fmt, **wkw)),
             d, 'gas.inp', {'model': [model(r, None, None) for r in rxs],
-                           'wit': [wit(r, None) for r in rxs]}, nl)
+                           'wit': [wit(r, None) for r in rxs],
+                           'awit': [_awitness(case, k, r, act not in G_METHODS, None, kw)
+                                    for k, r in enumerate(rxs)]}, nl)
         events.append(e)
         if gpath:
             events.append(_read_event('gas', gpath, species))
@@ -300,6 +340,8 @@ def execute(case):
                                                    **dict(skw, **dict(fmt, **wkw))),
             d, 'surf.inp', {'model': [model(r, o['sden_op'], ads_act) for r in rxs],
                             'wit': [wit(r, ads_act) for r in rxs],
+                            'awit': [_awitness(case, k, r, act not in G_METHODS, o['sden_op'], kw)
+                                     for k, r in enumerate(rxs)],
                             'mw': 'MWON' if o['mw'] else 'MWOFF', 'unit': unit_toks}, nl)
         events.append(e)
         if spath:
@@ -677,7 +719,8 @@ def _exercised(cases, traces):
         'surf_file_without_reactions', 'runs_1', 'runs_8', 'frac_conditions_1', 'frac_conditions_8',
         'all_species_in_tube', 'all_defaults', 'newline_crlf', 'rx_given_as_list', 'rx_given_as_Reactions',
         'from_string_reactions', 'bep_transition_states', 'coefficient_3', 'same_species_both_sides',
-        'occupancy_above_1', 'stick_int_1')}
+        'occupancy_above_1', 'stick_int_1', 'surface_rx_with_bulk_reactant', 'surface_rx_with_bulk_product',
+        'A_species_witnesses', 'A_species_witnesses_with_bulk_reactant', 'A_species_witnesses_with_entropy')}
     for m in ACTS:
         ex['act_' + m] = 0
     for m in ADS_ACTS:
@@ -754,6 +797,16 @@ def _exercised(cases, traces):
         ex['bep_transition_states'] += sum(1 for t in case['ts'] if t.get('kind') == 'bep')
         ex['coefficient_3'] += sum(c == 3 for r in case['rx'] for c, i in r['lhs'] + r['rhs'])
         ex['same_species_both_sides'] += sum(bool(set(i for c, i in r['lhs']) & set(i for c, i in r['rhs'])) for r in case['rx'])
+        nonads = [r for r in case['rx'] if not r['ads']]
+        ex['surface_rx_with_bulk_reactant'] += sum(any(sp[i - 1]['bulk'] for c, i in r['lhs']) for r in nonads)
+        ex['surface_rx_with_bulk_product'] += sum(any(sp[i - 1]['bulk'] for c, i in r['rhs']) for r in nonads)
+        for e in events:
+            if e['ev'] == 'write_surf' and not e['raised']:
+                for r, w in zip(case['rx'], e['awit']):
+                    if w['ok']:
+                        ex['A_species_witnesses'] += 1
+                        ex['A_species_witnesses_with_entropy'] += bool(w['hasS'])
+                        ex['A_species_witnesses_with_bulk_reactant'] += any(sp[i - 1]['bulk'] for c, i in r['lhs'])
         ex['occupancy_above_1'] += sum(x['occ'] > 1 for x in sp)
         ex['stick_int_1'] += sum(1 for r in case['rx'] if r['ads'] and r['stick'] == 1 and o.get('numkind') != 'float')
         ex['act_' + o['act']] += 1
@@ -884,6 +937,9 @@ def run(ctx):
     fails, stats = core.validate_traces('Trace_ChemkinDoc', 'Trace', traces)
     ctx.count('traces_validated_against_impl', len(traces))
     ctx.coverage['trace_lines'] = stats['lines']
+    if any(clause == 'WitnessBroken' for _, _, clause in fails):
+        bad = [(tid, idx) for tid, idx, clause in fails if clause == 'WitnessBroken'][:3]
+        raise core.MachineryError('a harness witness (site density operation / entropy sum) did not verify: %s' % bad)
     by = {}
     for tid, idx, clause in fails:
         by.setdefault((tid, clause, _file_of(traces[tid][1][idx])), []).append(idx)
